@@ -44,6 +44,25 @@ class ShellRef:
         return self.M * (self.L if self.type == "cartesian" else 2 * self.l + 1)
 
 
+class conditioning:
+    """Context manager: inside it the block builders below return the sum of the MAGNITUDES of all terms they add up (binomial
+    terms of the one-dimensional integrals, the terms of derivative polynomials, products entering r x grad, primitives with
+    |coefficients|) instead of the integrals - a real, non-negative array of the same shape (see r1.ABS)."""
+
+    def __enter__(self):
+        self.prev = r1.ABS
+        r1.ABS = True
+
+    def __exit__(self, *exc):
+        r1.ABS = self.prev
+
+
+def condition(blockfn, sa, sb, *args, **kw):
+    """Conditioning scale of blockfn(sa, sb, ...): what an evaluation that adds up the same terms may lose to rounding, per eps."""
+    with conditioning():
+        return np.abs(blockfn(sa, sb, *args, **kw))
+
+
 def _tables(sa, sb, extra_j=0, C=None, kmax=0):
     C = np.zeros(3) if C is None else np.asarray(C, dtype=float)
     return [r1.table1d(sa.exps, sa.A[ax], sb.exps, sb.A[ax], sa.l, sb.l + extra_j, C[ax], kmax)
@@ -59,7 +78,8 @@ def _contract(prim, sa, sb):
     """prim[ca, cb, ka, kb, ...] -> block[ma, ca, mb, cb, ...] with primitive norms and coefficients."""
     ex = (slice(None),) * 4 + (None,) * (prim.ndim - 4)
     prim = prim * sa.pn[:, None, :, None][ex] * sb.pn[None, :, None, :][ex]
-    return np.einsum("abkl...,km,ln->manb...", prim, sa.coeffs, sb.coeffs)
+    ca, cb = (np.abs(sa.coeffs), np.abs(sb.coeffs)) if r1.ABS else (sa.coeffs, sb.coeffs)
+    return np.einsum("abkl...,km,ln->manb...", prim, ca, cb)
 
 
 def _norm(block, sa, sb):
@@ -100,12 +120,12 @@ def deriv_block(sa, sb, order, normalised=True):
 
 
 def kinetic_block(sa, sb, normalised=True):
-    return -0.5 * sum(deriv_block(sa, sb, o, normalised) for o in ((2, 0, 0), (0, 2, 0), (0, 0, 2)))
+    return (0.5 if r1.ABS else -0.5) * sum(deriv_block(sa, sb, o, normalised) for o in ((2, 0, 0), (0, 2, 0), (0, 0, 2)))
 
 
 def momentum_block(sa, sb, normalised=True):
     """<a| -i grad |b>, last axis = x, y, z."""
-    return -1j * np.stack([deriv_block(sa, sb, o, normalised) for o in ((1, 0, 0), (0, 1, 0), (0, 0, 1))], -1)
+    return (1.0 if r1.ABS else -1j) * np.stack([deriv_block(sa, sb, o, normalised) for o in ((1, 0, 0), (0, 1, 0), (0, 0, 1))], -1)
 
 
 def angmom_block(sa, sb, normalised=True):
@@ -117,9 +137,9 @@ def angmom_block(sa, sb, normalised=True):
     out = []
     for (u, v, w) in ((0, 1, 2), (1, 2, 0), (2, 0, 1)):
         # component u: r_v d_w - r_w d_v
-        out.append(S[u] * (R[v] * D[w] - R[w] * D[v]))
+        out.append(S[u] * (R[v] * D[w] + R[w] * D[v]) if r1.ABS else S[u] * (R[v] * D[w] - R[w] * D[v]))
     blk = _contract(np.stack(out, -1), sa, sb)
-    return -1j * (_norm(blk, sa, sb) if normalised else blk)
+    return (1.0 if r1.ABS else -1j) * (_norm(blk, sa, sb) if normalised else blk)
 
 
 # -------------------------------------------------------------------------------------------
